@@ -120,6 +120,8 @@ def random_point(facts, polys, seed):
 def verify_function(funcs, spec, seed=0):
     res = Result(spec.fid)
     hits = find_func(funcs, spec)
+    if not hits and getattr(spec, 'optional', False):
+        return res          # an override that the current tree does not define: nothing to prove
     if len(hits) != 1:
         res.add(spec.fid + '/anchor', 'undecided', 'function not found uniquely in MIR (%d candidates)' % len(hits))
         return res
